@@ -28,6 +28,7 @@ fn main() {
         "mostrecent" => drivers::mostrecent::run(&args),
         "codec" => drivers::codec::run(&args),
         "shapes" => drivers::shapes::run(&args),
+        "nestprobe" => drivers::nestprobe::run(&args),
         "sock" => drivers::sock::run(&args),
         "putq" => drivers::putq::run(&args),
         "query" => drivers::query::run(&args),
